@@ -131,8 +131,11 @@ REG_KINDS = ["cc", "mc", "ca", "ma", "sm", "sf"]
 
 def reg_apply(moved, op):
     """the legality rule of a special-member call (which objects are moved-from); returns the new flags or None"""
-    k, d, s = op[:2], int(op[2]), int(op[3])
     m = list(moved)
+    if op[:2] == "dc":
+        m[int(op[2])] = False
+        return m
+    k, d, s = op[:2], int(op[2]), int(op[3])
     if k in ("cc", "mc") and d == s:
         return None
     if k in ("cc", "ca"):
@@ -148,7 +151,7 @@ def reg_apply(moved, op):
     return m
 
 
-REG_OPS = [f"{k}{d}{s}" for k in REG_KINDS for d in range(3) for s in range(3)]
+REG_OPS = [f"{k}{d}{s}" for k in REG_KINDS for d in range(3) for s in range(3)] + [f"dc{d}" for d in range(3)]
 
 
 def reg_programs(length):
@@ -218,7 +221,8 @@ def batches(rng, tier):
         s = L(d)
         ops += [f"mk {s} {i % 7}", f"mkc {s} {i % 5 - 2}", f"all {s}", f"refall {s} {i % 4}", f"fill {s} {-i} {i % 6}", f"out {s} {i % 3}",
                 f"map {s} {i % 3} {i % 5 - 2} {i % 7 - 3}", f"apply {s} 1 {s} 2", f"apply {s} 1 {s} 2 {s} 3"]
-    yield Batch("whole-grid-all-sizes", ops, exhaustive=True, note="function/value constructor, make_pos_range, make_pos_ref_(c)range, fill, operator<<, map, apply(2,3 equal sizes) on every size 0..4^N")
+        ops += [f"fillself {s} {i % 5} {mode}" for mode in range(5)]
+    yield Batch("whole-grid-all-sizes", ops, exhaustive=True, note="function/value constructor, make_pos_range, make_pos_ref_(c)range, fill (also with a function reading the grid's own first / last / previous / next / current cell), operator<<, map, apply(2,3 equal sizes) on every size 0..4^N and 0..6^N for N<=2")
 
     # ---- pos_range: every (min, sup) in a window
     ops = []
@@ -341,7 +345,7 @@ def batches(rng, tier):
             ops += [f"regs {cfg} {'.'.join(pr)}" for pr in reg_programs(ln)]
     yield Batch("special-members-all-histories-2", ops, exhaustive=True,
                 note="three objects of different sizes (same content, different shape included), every legal history of <= 2 calls out of "
-                     "copy ctor, move ctor, copy assignment, move assignment, member swap, free swap over all (dst, src) incl. dst = src")
+                     "default ctor, copy ctor, move ctor, copy assignment, move assignment, member swap, free swap over all (dst, src) incl. dst = src")
     if wide:
         ops = [f"regs {regcfg[2]} {'.'.join(pr)}" for pr in reg_programs(3)]
         yield Batch("special-members-all-histories-3", ops, exhaustive=True, note="every legal history of exactly 3 calls on the 2-D configuration")
